@@ -24,7 +24,17 @@ RULE = ('case = one history of mutating/copying API calls from the full '
         'in operands and as newly written keys; operands fresh / aliased '
         'node of the same or another tree / invalid / the SAME object at several '
         'places of one call / for typed slots the valid or deep-invalid value as '
-        'a PRE-BUILT symbolic container); tree_ok (paths compared as key '
+        'a PRE-BUILT symbolic container). Members of the forests and operands '
+        'include pg.Ref nodes (references to fresh containers and to live '
+        'nodes, reference nodes included) and objects with regex-keyed fields '
+        'whose value specs have symbolic defaults, built with several keys of '
+        'one key spec given as an explicit pg.MISSING_VALUE (keyword / partial '
+        '/ from_json / typed pg.Dict; batches of such keys in rebind); step '
+        'kinds "wrap[...]" fetch a stored node AS A NODE (sym_getattr / '
+        'sym_values / sym_items / traverse) and hand it to a constructor or '
+        'wrapper of symbolic values again (pg.Ref, pg.maybe_ref, deref, '
+        'pg.from_json, pg.Dict / pg.List / type(o) of its own members), after '
+        'which every node of the forest must be as before; tree_ok (paths compared as key '
         'sequences) is evaluated after every step and after every constructor of '
         'a shared operand; after every call (accepted or rejected, constructors '
         'included) every symbolic object that was handed in and is not stored in '
@@ -38,7 +48,10 @@ REQUIRED_COUNTERS = ['tree_ok_evals', 'steps_ok', 'steps_rejected',
                      'rejected_on_typed_parent_of_nodes', 'operand_checks',
                      'rejected_steps_with_symbolic_operand',
                      'steps_hostile_key', 'forests_with_hostile_key',
-                     'steps_prebuilt_for_typed_slot_rejected']
+                     'steps_prebuilt_for_typed_slot_rejected',
+                     'steps_wrap_existing_node', 'steps_wrap_ref_node',
+                     'steps_with_ref_operand', 'forests_with_ref_node',
+                     'ctor_two_missing_keys_of_one_key_spec']
 ASSUMPTIONS = [
     'only public API is observed (sym_parent, sym_path, sym_items, sym_get, sym_root)',
     'self-containing values (a root inserted below itself) are not generated',
@@ -79,15 +92,34 @@ def typed_parent_of_nodes(forest, step):
 
 def run_case(ctx, i):
   rng = ctx.rng
-  descs, forest = A.make_forest(rng)
-  seen = {}
   c = ctx.counters
+  descs, forest, built0 = A.make_forest2(rng, counters=c)
+  seen = {}
+  for d in descs:
+    if A.max_missing(d) >= 2:
+      c['ctor_two_missing_keys_of_one_key_spec'] += 1
+  if any(isinstance(n, pg.Ref) for _, _, n in H.all_nodes(forest)):
+    c['forests_with_ref_node'] += 1
   if any(k in A.HOSTILE_KEYS and not (isinstance(k, int) and k >= 0)
          for _, _, n in H.all_nodes(forest) if isinstance(n, pg.Dict)
          for k in n.sym_keys()):
     c['forests_with_hostile_key'] += 1
   first = TM.tree_ok(forest, seen, c)
   c['tree_ok_evals'] += 1
+  per = collections.OrderedDict()
+  for clause, mech, detail in built0:
+    per.setdefault((clause, mech), detail)
+  for (clause, mech), detail in per.items():
+    ctx.violation(clause, mech, 'while the forest was built\n' + detail,
+                  {'forest': descs})
+  if built0:
+    first = []                      # attributed to the constructor already
+    forest[:] = heal(forest)
+    seen.clear()
+    c['heals'] += 1
+    if TM.tree_ok(forest, seen):
+      c['abandoned_histories'] += 1
+      return
   for clause, detail in first:
     ctx.violation(clause, 'construction', detail, {'forest': descs})
   trace, ok_steps, after = [], 0, None
@@ -109,6 +141,15 @@ def run_case(ctx, i):
     if step.get('hostile'):
       c['steps_hostile_key'] += 1
       c['hostile:' + step['op']] += 1
+    if step.get('wrap'):
+      c['steps_wrap_existing_node'] += 1
+      c['wrap:' + step['op']] += 1
+      if step.get('ref_target'):
+        c['steps_wrap_ref_node'] += 1
+    if step.get('refs'):
+      c['steps_with_ref_operand'] += 1
+    if step.get('missing', 0) >= 2:
+      c['ctor_two_missing_keys_of_one_key_spec'] += 1
     if step.get('prebuilt'):
       c['steps_prebuilt_for_typed_slot'] += 1
       if status == 'raise':
@@ -155,7 +196,7 @@ def run_case(ctx, i):
             pass
       for clause, detail in per.items():
         mech = A.mechanism(step, status,
-                           decided and clause not in with_notify)
+                           decided and clause not in with_notify, built)
         ctx.violation(clause, mech, f'after step {len(trace)}: {trace[-1]}\n{detail}',
                       {'forest': descs, 'history': trace[-12:]})
     elif built.operand_findings:
@@ -165,7 +206,7 @@ def run_case(ctx, i):
       for clause, detail in built.operand_findings:
         per.setdefault(clause, detail)
       for clause, detail in per.items():
-        ctx.violation(clause, A.mechanism(step, status),
+        ctx.violation(clause, A.mechanism(step, status, False, built),
                       f'after step {len(trace)}: {trace[-1]}\n{detail}',
                       {'forest': descs, 'history': trace[-12:]})
     if problems:
